@@ -1,5 +1,8 @@
 """C08: secret-key locking."""
 BIN = "c08"
+# the protected octets the library writes for given inputs must be the ones RFC 9580 (the model) prescribes: where they differ, the key the
+# model locks is a key from the wire that the library no longer unlocks (and the reverse), so the disagreeing case is the failing input
+DISAGREEMENT_IS_FAILURE = True
 
 def expected(case, mout):
     return mout
